@@ -134,7 +134,7 @@ func RandOffset(r *rng.Rng, regime int) float64 {
 	case 2:
 		return sign * math.Floor(r.LogUniform(1e4, 1e6)*8) / 8
 	case 3:
-		return sign * math.Floor(r.LogUniform(1e8, 1.5e9))
+		return sign * math.Floor(r.LogUniform(1e8, 2.14e9))
 	}
 	return 0
 }
